@@ -45,6 +45,13 @@ pub fn learn_case(name: &'static str, input: Shape, layers: Vec<L>, nout: usize,
 /// `mode` = "explore": every schedule of the stage; "reversed": the single schedule that runs the closures in reverse
 /// order and reduces right-to-left (used for batches too large to enumerate: 8! orders)
 pub fn learn_case_mode(name: &'static str, input: Shape, layers: Vec<L>, nout: usize, n: usize, batch: usize, mode: &'static str) -> Case {
+    learn_case_wired(name, input, layers, vec![], nout, n, batch, mode)
+}
+
+/// … with skip connections. The network keeps its wiring in hash maps: their iteration order is arbitrary and differs
+/// from run to run (fresh hash keys), so it is part of the "schedule" (symrt::hashmodel) — every repetition builds its
+/// own network, as a repeated run of the same program does.
+pub fn learn_case_wired(name: &'static str, input: Shape, layers: Vec<L>, skips: Vec<(usize, usize)>, nout: usize, n: usize, batch: usize, mode: &'static str) -> Case {
     Case {
         id: format!("C05/learn/{}/N{}-B{}{}", name, n, batch, if mode == "explore" { "" } else { "/reversed-schedule" }),
         property: "C05",
@@ -59,6 +66,9 @@ pub fn learn_case_mode(name: &'static str, input: Shape, layers: Vec<L>, nout: u
             let vt: Vec<Tensor> = (0..2).map(|i| t1(&v1(ctx, &format!("vt{}", i), nout))).collect();
             let mut run = |ctx: &mut Ctx, threads: usize| -> (V1, V1, V1, V1) {
                 let mut net = mknet(ctx, &input, &layers);
+                for (a, b) in skips.iter() {
+                    net.connect(*a, *b);
+                }
                 let (xr, tr): (Vec<&Tensor>, Vec<&Tensor>) = (xs.iter().collect(), ts.iter().collect());
                 let (vxr, vtr): (Vec<&Tensor>, Vec<&Tensor>) = (vx.iter().collect(), vt.iter().collect());
                 let (tl, vl, va) = ctx.with_threads(threads, || net.learn(&xr, &tr, Some((&vxr, &vtr, 5)), batch, 1, None));
@@ -167,7 +177,13 @@ pub fn cases(tier: Tier, _seed: u64) -> Vec<Case> {
     // a batch of 8 samples: one alternative schedule (reverse order, right-to-left reduction)
     out.push(learn_case_mode("dense-dense", Shape::Single(2), vec![L::Dense(2, Tanh, true), L::Dense(1, Linear, true)], 1, 8, 8, "reversed"));
     out.push(learn_case_mode("conv-pool-dense", Shape::Triple(1, 2, 2), vec![L::Conv(1, (2, 2), (1, 1), (1, 1), (1, 1), Linear), L::Pool((1, 1), (1, 1)), L::Dense(1, Linear, true)], 1, 12, 6, "reversed"));
+    // two skip connections leaving the same layer (a three-term gradient sum whose order must not depend on hash order)
+    let d = |n: usize, a: Act| L::Dense(n, a, false);
+    out.push(learn_case_wired("dense4-skips-1to2-1to3", Shape::Single(2), vec![d(2, Linear), d(2, Linear), d(2, Linear), d(1, Linear)], vec![(1, 2), (1, 3)], 1, 2, 2, "explore"));
+    out.push(learn_case_wired("dense4-skips-1to2-1to3", Shape::Single(2), vec![d(2, Tanh), d(2, Linear), d(2, Tanh), d(1, Linear)], vec![(1, 3), (1, 2)], 1, 3, 3, "reversed"));
     if full {
+        out.push(learn_case_wired("dense5-skips-1to2-1to3-1to4", Shape::Single(2), vec![d(2, Linear), d(2, Linear), d(2, Linear), d(2, Linear), d(1, Linear)], vec![(1, 2), (1, 3), (1, 4)], 1, 2, 2, "explore"));
+        out.push(learn_case_wired("dense4-skips-0to1-1to2-1to3", Shape::Single(2), vec![d(2, Linear), d(2, Linear), d(2, Linear), d(1, Linear)], vec![(0, 1), (1, 2), (1, 3)], 1, 2, 1, "explore"));
         out.push(learn_case("dense-dense", Shape::Single(2), vec![L::Dense(2, Tanh, true), L::Dense(1, Linear, true)], 1, 5, 3));
         out.push(learn_case("conv-conv-dense", Shape::Triple(1, 3, 3), vec![L::Conv(1, (2, 2), (1, 1), (0, 0), (1, 1), Linear), L::Conv(1, (2, 2), (1, 1), (0, 0), (1, 1), Sigmoid), L::Dense(2, Linear, true)], 2, 3, 3));
     }
